@@ -120,7 +120,7 @@ func c11Byte(b byte, kind, impl, pre int) string {
 
 // --- format strings ---------------------------------------------------------
 
-var fmtTokens = []string{"%", "v", "d", "s", "x", "w", "+", "-", "#", " ", "0", "1", "5", ".", "*", "[1]", "[2]", "[9]", "[", "]", "a", mStart, "\n", "\xe2"}
+var fmtTokens = []string{"%", "v", "d", "s", "x", "w", "+", "-", "#", " ", "0", "1", "5", ".", "*", "[1]", "[2]", "[9]", "[", "]", "a", mStart, "\n", "\xe2", "1000001", "99999999999999999999", "[99999999999999999999]"}
 
 var c11ArgLists = [][]interface{}{
 	{},
